@@ -1088,11 +1088,13 @@ def _zip_fn():
     return FuncV('zip', zip_)
 
 
-def _loop_ordinal(relpath, qualname, pick):
+def _loop_ordinal(relpath, qualname, pick, optional=False):
     """ordinal (engine numbering) of the loop selected by pick(node, parents) in the real function"""
     fn = extract.get_function(relpath, qualname).node
     loops = [n for n in _ast.walk(fn) if isinstance(n, (_ast.While, _ast.For))]
     hits = [i for i, n in enumerate(loops) if pick(n, [m for m in loops if m is not n and any(d is n for d in _ast.walk(m))])]
+    if not hits and optional:
+        return None      # the iteration is spelled without a loop statement (any()/all() over a generator expression): no loop clause applies
     if len(hits) != 1:
         raise KeyError('expected exactly one matching loop in %s, found %d' % (qualname, len(hits)))
     return hits[0]
@@ -1139,7 +1141,7 @@ def _pair_eq_unit():
 
             def inv(e, k):
                 return [('neighbors-agree-so-far', same_upto(e.val('attname').value, k))]
-            inner = _loop_ordinal(LM, 'Pair._eq', lambda n, parents: isinstance(n, _ast.For) and len(parents) == 1)
+            inner = _loop_ordinal(LM, 'Pair._eq', lambda n, parents: isinstance(n, _ast.For) and len(parents) == 1, optional=True)
             g = dict(lib.builtins(), Concept=ClassV('Concept'), NotImplemented=NotImpl, getattr=_getattr_fn(), zip=_zip_fn())
 
             def finish(path, env, outcome):
@@ -1156,7 +1158,10 @@ def _pair_eq_unit():
                 spec = And(ext['s'] == ext['o'], int_['s'] == int_['o'],
                            *[And(nlen['s', a] == nlen['o', a], same_upto(a, nlen['s', a])) for a in ATTS])
                 path.oblige('post/True-iff-same-extent-intent-and-pairwise-same-neighbor-extents', 'post', r.t == spec)
-            return {'self': this, 'other': other}, {'globals': g, inner: LoopSpec(inv)}, finish
+            loops = {'globals': g}
+            if inner is not None:
+                loops[inner] = LoopSpec(inv)
+            return {'self': this, 'other': other}, loops, finish
         return bits.axioms() + seqs.axioms(), harness
     return make
 
@@ -1374,12 +1379,14 @@ def _lattice_eq_unit():
                 o = ObjV('list', {'__eq__': FuncV('list.__eq__', list_eq)}, name='atom-extents')
                 o.owner = owner if ok else None
                 return o
-            loop = _loop_ordinal(LT, 'Data._eq', lambda n, parents: isinstance(n, _ast.For) and not parents)
+            loop = _loop_ordinal(LT, 'Data._eq', lambda n, parents: isinstance(n, _ast.For) and not parents, optional=True)
             spec = LoopSpec(lambda e, k: [('members-agree-so-far', ForAll([t], Implies(And(0 <= t, t < k), same(t)),
                                                                           patterns=[idx['s'](t), idx['o'](t), AEQ(t, t)]))])
             g = dict(lib.builtins(), Lattice=ClassV('Lattice'), NotImplemented=NotImpl, zip=_zip_fn())
-            loops = {'globals': g, loop: spec,
+            loops = {'globals': g,
                      'closed_form': {'SetComp#0': keyset, 'SetComp#1': keyset, 'ListComp#0': atomlist, 'ListComp#1': atomlist}}
+            if loop is not None:
+                loops[loop] = spec
 
             def finish(path, env, outcome):
                 if outcome[0] != 'return':
@@ -1515,6 +1522,11 @@ class GenReach:
             ('gen.seed', ForAll([i], Implies(R.seed(i), R.gen(i)), patterns=[R.seed(i)])),
             ('gen.step', ForAll([i, j], Implies(And(R.gen(i), R.step(i, j)), R.gen(j)), patterns=[MultiPattern(R.gen(i), R.nxt(i, j))])),
         ]
+        # x | t == t  <->  x & t == x  (both spell "x is inside t"): lemma.bits_subset, proved as a unit; the code may use either test
+        from contracts.lemmas_z3 import st_bits_subset
+        from contracts.ctxtheory import SetPreds
+        ax += st_bits_subset()[1] + SetPreds().axioms()
+        ax += [('item.extent-nat', ForAll([i], R.ext(i) >= 0, patterns=[R.ext(i)]))]       # LatInv: an extent is a bitset (a natural number)
         if requirements:
             ax += [
                 ('req.key-nonneg', ForAll([i], Implies(R.gen(i), i >= 0), patterns=[R.gen(i)])),
@@ -1732,6 +1744,7 @@ register(Unit('lattices.upset_generalization', LT, 'NavigateableMixin.upset_gene
                            'contract of tools.maximal (unit tools.maximal); heapq contract as for common.iterunion (heappop removes a pair with minimal key, '
                            'multiplicities abstracted; heappush adds; heapify keeps the entries); reduce_or = the union of the given sets (unit bitsets.*reduce_or)',
                            'lemma L-REACH proved in Lean (lemmas/Worklist.lean: reach_subset, generic in the step relation)',
+                           'x | t == t <-> x & t == x for naturals (unit lemma.bits_subset); extents are naturals (LatInv)',
                            'termination of the worklist loop is not proved; the method is documented as EXPERIMENTAL'],
               linkage=[('type(lat).upset_generalization', None)]))
 
